@@ -5,6 +5,11 @@ use rosu_pp::any::{DifficultyAttributes, PerformanceAttributes};
 use crate::maps::{diff_floats, perf_floats};
 
 pub mod c02;
+pub mod c03;
+pub mod c04;
+pub mod c07;
+pub mod c08;
+pub mod c15;
 
 /// Names of the fields in which two difficulty attribute values differ (bitwise for floats).
 pub fn diff_fields(a: &DifficultyAttributes, b: &DifficultyAttributes) -> Vec<String> {
@@ -104,6 +109,11 @@ pub type CaseFn = fn(&mut crate::runner::Ctx, u64);
 pub fn lookup(prop: &str) -> Option<CaseFn> {
     Some(match prop {
         "C02" => c02::case,
+        "C03" => c03::case,
+        "C04" => c04::case,
+        "C07" => c07::case,
+        "C08" => c08::case,
+        "C15" => c15::case,
         _ => return None,
     })
 }
